@@ -711,6 +711,17 @@ func runC05Strict(c *Ctx) {
 			c.bad("(*RuleExpression).checkMatrix|rows in a strict object", cm.Pos(), "the row keys are not collected into a strict object")
 		}
 	}
+	// (a'') exactly the row keys plus the include keys: every row and every literal include assignment enters its key
+	if cm := p.Method("RuleExpression", "checkMatrix"); cm != nil {
+		for _, t := range []struct{ field, what string }{{"Matrix.Rows", "row"}, {"MatrixCombination.Assigns", "include assignment"}} {
+			construct := "(*RuleExpression).checkMatrix|every " + t.what + " enters its key"
+			if pos, why := keyEnteredForEveryElement(cm, t.field); why == "" {
+				c.ok(construct, pos, "stored on every iteration of the loop over "+t.field)
+			} else {
+				c.bad(construct, pos, "a matrix key given by a "+t.what+" may be missing from the matrix scope ("+why+"): a reference to it is reported as undefined")
+			}
+		}
+	}
 	// (b) every Loose() in the rule is guarded by an expression test
 	occ := map[string]int{}
 	for _, fn := range p.Funcs {
